@@ -45,7 +45,15 @@ class FuncInfo:
 
     @property
     def is_property(self) -> bool:
-        return any(d in ("property", "cached_property", "functools.cached_property") for d in self.decorators)
+        return any(d in ("property", "cached_property", "functools.cached_property") or d.endswith(".getter") for d in self.decorators)
+
+    @property
+    def accessor_kind(self) -> Optional[str]:
+        """'setter' / 'deleter' for `@name.setter` / `@name.deleter` definitions (they extend the property `name`)."""
+        for d in self.decorators:
+            if "." in d and d.rsplit(".", 1)[1] in ("setter", "deleter"):
+                return d.rsplit(".", 1)[1]
+        return None
 
 
 @dataclass
@@ -56,6 +64,8 @@ class ClassInfo:
     bases: List[str]                       # dotted text of each base as written
     methods: Dict[str, FuncInfo] = field(default_factory=dict)
     attrs: Dict[str, ast.AST] = field(default_factory=dict)   # class-level simple assignments
+    setters: Dict[str, FuncInfo] = field(default_factory=dict)  # property name -> `@name.setter` function
+    deleters: Dict[str, FuncInfo] = field(default_factory=dict)
     ann_attrs: Dict[str, ast.AnnAssign] = field(default_factory=dict)
     decorators: List[str] = field(default_factory=list)
 
@@ -176,6 +186,12 @@ class Program:
             self.classes[node.name] = ci
         for st in node.body:
             if isinstance(st, (ast.FunctionDef, ast.AsyncFunctionDef)):
+                kind = next((d.rsplit(".", 1)[1] for d in _decorator_names(st) if "." in d and d.rsplit(".", 1)[1] in ("setter", "deleter")
+                             and d.rsplit(".", 1)[0] == st.name), None)
+                if kind:        # @name.setter / @name.deleter: part of the property `name`, not a new attribute
+                    fi = self._index_func(m, st, ci, None, f"{node.name}.{st.name}.{kind}")
+                    (ci.setters if kind == "setter" else ci.deleters)[st.name] = fi
+                    continue
                 fi = self._index_func(m, st, ci, None, f"{node.name}.{st.name}")
                 ci.methods[st.name] = fi
             elif isinstance(st, ast.Assign):
